@@ -94,6 +94,7 @@ func (g *gateImpl) AwaitGateCondition() error {
 	for g.arrived != g.count && !g.canceled {
 		g.gateCondition.Wait()
 	}
+	verifGateReturn(g.arrived, g.count, g.canceled)
 
 	if g.canceled {
 		if g.err != nil {
